@@ -4,7 +4,7 @@
 set -u
 WT=$1; OUT=$2
 cd "$WT" || exit 2
-git checkout -q -- . && git clean -qfd -e target
+git reset -q --hard && git clean -qfd -e target
 git apply "$OUT/patch.diff" || { echo "PATCH DOES NOT APPLY"; exit 2; }
 R1=$(CARGO_NET_OFFLINE=true cargo test --workspace --no-fail-fast --offline 2>&1 | grep -E "^test result" | awk '{p+=$4; f+=$6} END {print p" passed "f" failed"}')
 echo "suite with patch: $R1"
@@ -14,4 +14,4 @@ echo "suite+demo with patch: $R2"
 git apply -R "$OUT/patch.diff"
 R3=$(CARGO_NET_OFFLINE=true cargo test --workspace --no-fail-fast --offline 2>&1 | grep -E "^test result" | awk '{p+=$4; f+=$6} END {print p" passed "f" failed"}')
 echo "suite+demo without patch: $R3"
-git checkout -q -- . && git clean -qfd -e target
+git reset -q --hard && git clean -qfd -e target
